@@ -3300,6 +3300,13 @@ func (h *RequestHeader) parseHeaders(buf []byte, blockEnd int) (int, error) {
 	if h.contentLength < 0 {
 		h.contentLengthBytes = h.contentLengthBytes[:0]
 	}
+	if transferEncodingSeen && (contentLengthSeen || h.contentLength != -1) {
+		// RFC 9112 section 6.1 and 6.3: a request with both Content-Length
+		// and Transfer-Encoding, or with a Transfer-Encoding that is not
+		// chunked (identity), has ambiguous framing. It may be served, but
+		// the connection must not be reused for another request.
+		h.connectionClose = true
+	}
 	if h.noHTTP11 && !h.connectionClose {
 		// close connection for non-http/1.1 request unless 'Connection: keep-alive' is set.
 		v := peekArgBytes(h.h, strConnection)
